@@ -104,6 +104,9 @@ def run(ctx, rep):
     memhash_pairing(P, rep, 'R-C16-3h')
     from .C10 import primitive_roundtrip_rule
     primitive_roundtrip_rule(P, rep, 'R-C16-3p')
+    # an array written with a reduced hash size is repaired like one with the full size (the reference version did so)
+    from .C05 import chg_decision_rules
+    chg_decision_rules(P, rep, rid_size='R-C16-7')
     refs = json.load(open(os.path.join(VERIF, 'ref', 'hash_schedule.json')))
     cur = hashsched.all_schedules(ctx.util_O1)
     for fn in hashsched.FUNCS:
